@@ -283,7 +283,9 @@ class LinearLabelMapper:
             subs = [j for i in subs for j in isotopomers[i]]
             prods = [j for i in prods for j in isotopomers[i]]
             subs, prods = _add_label_influx_or_efflux(subs, prods, label_map)
-            subs = _map_substrates_to_labelmap(subs, label_map)
+            # Product position i is built from substrate position label_map[i],
+            # the direction documented for and used by the LabelMapper
+            subs = [subs[i] for i in label_map[: len(prods)]]
             for i, (substrate, product) in enumerate(zip(subs, prods, strict=True)):
                 if substrate == product:
                     continue
